@@ -48,7 +48,23 @@ OBLIGATIONS = [
     {"id": "C18_W6d", "theorem": "Iora.C18.W6_server_fragment_bounded", "kind": "proved",
      "statement": "for every history and arbitrary bytes the fragment buffer holds at most max bytes (FC18a)"},
     {"id": "C18_W6_upgrade", "theorem": "Iora.C18.W6_server_upgrade_boundary", "kind": "proved",
-     "statement": "bytes received with the upgrade request are handled exactly like a first read; the bounds hold for every continuation"},
+     "statement": "the buffer bounds hold for every continuation of a session created with trailing bytes behind the upgrade request"},
+    {"id": "C18_W6e", "theorem": "Iora.C18.W6_transport_close_frees", "kind": "proved",
+     "statement": "after the transport has closed the connection the session entry is gone and nothing done later under that id retains a byte (FC18g: bounded buffering across connections)"},
+    {"id": "C18_W6_defaults", "theorem": "Iora.C18.W6_default_limits", "kind": "proved",
+     "statement": "the regenerated default limits are 16 MiB (server and client frame/message limit), 64 KiB (pending upgrade response), 1 MiB (bytes held back during a server upgrade)"},
+    {"id": "C18_handover_pinned", "theorem": "Iora.C18.C18_handover_pinned", "kind": "proved",
+     "statement": "the six shape facts of the HTTP->WebSocket hand-over and the order of the pool thread's steps, regenerated from http_server.hpp / websocket_server.hpp, are what the step model assumes (decide)"},
+    {"id": "C18_upgrade_handover", "theorem": "Iora.C18.C18_upgrade_handover", "kind": "proved",
+     "statement": "pool thread || I/O thread, EVERY schedule: events = connect, 101, then onUpgradedData over a segmentation of a prefix of trailing++reads; the rest waits in order; nothing waits once the pool thread is done (FC18f)"},
+    {"id": "C18_upgrade_sched", "theorem": "Iora.C18.C18_upgrade_schedule_independent", "kind": "proved",
+     "statement": "any two finished hand-over runs of the same valid frame stream (any cut into trailing/reads, any interleaving) deliver the same messages"},
+    {"id": "C18_old_handover", "theorem": "Iora.C18.C18_old_handover_refuted", "kind": "proved",
+     "statement": "the unrepaired hand-over (route by _upgradedSessions alone, single drain) is NOT schedule independent: a read between mark and drain is delivered first"},
+    {"id": "C18_upgrade_iff", "theorem": "Iora.C18.C18_upgrade_accepted_iff", "kind": "proved",
+     "statement": "onUpgradeRequest (tokens and statuses regenerated from the source) accepts exactly: Upgrade = websocket (any case), Connection contains upgrade (any case), key present, version 13"},
+    {"id": "C18_reconnect", "theorem": "Iora.C18.C18_reconnect_fresh", "kind": "proved",
+     "statement": "doConnect (model defined from the regenerated list of resets) leaves exactly the fresh pre-upgrade client whatever the previous connection left"},
     {"id": "C18_W3_client", "theorem": "Iora.C18.W3_client_segmentation_independent", "kind": "proved",
      "statement": "client events are the same for any two segmentations of any valid stream, any callback behaviour"},
     {"id": "C18_W3_client_upgrade", "theorem": "Iora.C18.W3_client_upgrade_boundary", "kind": "proved",
@@ -58,7 +74,7 @@ OBLIGATIONS = [
     {"id": "C18_W4_client_messages", "theorem": "Iora.C18.W4_client_messages_exact", "kind": "proved",
      "statement": "client message-level exactness for every segmentation"},
     {"id": "C18_W5_client", "theorem": "Iora.C18.W5_client_no_data_after_close", "kind": "proved",
-     "statement": "client: for every history (incl. the upgrade response and sends from callbacks) no data frame follows a close frame"},
+     "statement": "client: for every history (incl. the upgrade response, sends from callbacks and disconnect()'s courtesy CLOSE: FC18e) no data frame follows a close frame"},
     {"id": "C18_W6c_client", "theorem": "Iora.C18.W6_client_buffer_bounded", "kind": "proved",
      "statement": "client: retained buffer < 14 + max and fragment buffer <= max for every history and arbitrary bytes (FC18b)"},
     {"id": "C18_W6_client_upgrade", "theorem": "Iora.C18.W6_client_upgrade_bounded", "kind": "proved",
@@ -67,6 +83,12 @@ OBLIGATIONS = [
      "statement": "arbitrary bytes: consumed <= size, allocation <= available and <= max"},
     {"id": "C18_W6b", "theorem": "Iora.C18.W6_incomplete_short", "kind": "proved",
      "statement": "an incomplete buffer is shorter than 14 + max, for arbitrary bytes (bounded buffering)"},
+    {"id": "C18_W1_opcodes", "theorem": "Iora.C18.W1_opcode_table", "kind": "proved",
+     "statement": "the opcode numbers both models dispatch on are the regenerated enumerators of WsOpcode; the control set is isControlFrame's"},
+    {"id": "C18_W4_same", "theorem": "Iora.C18.W4_server_client_same_messages", "kind": "proved",
+     "statement": "server fed any segmentation and client fed any other segmentation of the frames of a message list (close last) deliver the same (opcode, payload) sequence"},
+    {"id": "C18_W4_after_close_obs", "theorem": "Iora.C18.W4_data_after_peer_close_observation", "kind": "proved",
+     "statement": "observation: on binary, CLOSE, binary (a stream RFC 6455 5.5.1 forbids) the server delivers one message, the client both"},
     {"id": "C18_RSV", "theorem": "Iora.C18.W6_rsv_observation", "kind": "proved",
      "statement": "observation: a first byte with an RSV bit yields an empty frame that is handled as real and is not extension-stable"},
 ]
@@ -76,7 +98,8 @@ VERIF = os.path.dirname(os.path.dirname(os.path.abspath(__file__)))
 DETSCHED = os.path.join(VERIF, "harness", "detsched", "detsched.cpp")
 LEAN_MODULES_ALL = ["IoraModel.Lemmas.WsFrame", "IoraModel.Lemmas.WsServer", "IoraModel.Lemmas.WsStream", "IoraModel.Lemmas.WsClient",
                     "IoraModel.Lemmas.WsEndpoint", "IoraModel.Lemmas.WsUpgrade", "IoraModel.Model.WsClient", "IoraModel.Lemmas.Utf8", "IoraModel.Model.WsFrame",
-                    "IoraModel.Model.WsServer", "IoraModel.Model.WsSkel", "IoraModel.Model.WsConc", "IoraModel.Lemmas.WsConc", "IoraModel.Common.Framing"]
+                    "IoraModel.Model.WsServer", "IoraModel.Model.WsSkel", "IoraModel.Model.WsConc", "IoraModel.Lemmas.WsConc", "IoraModel.Common.Framing",
+                    "IoraModel.Model.WsHandover", "IoraModel.Lemmas.WsHandover"]
 
 CONTROL = (8, 9, 10)
 DATA = (0, 1, 2)
@@ -418,14 +441,25 @@ def gen_server_cases(ctx, rng, scale, quick):
             ops += app    # application sends after the stream (same for every segmentation, so events stay comparable)
             cases.append({"cat": "server-stream", "ops": ops, "stream_id": sidx, "expect_msgs": st["expect"], "ends_early": st["ends_early"],
                           "maxframe": maxframe, "stream_len": len(stream), "nseg": len(segs)})
+    # control frames between the fragments of a message that uses the WHOLE budget: controls do not count against the message
+    for bi, M in enumerate([64, 200, 300, 64, 125, 126] * scale):
+        pl = rand_payload(rng, M - rng.below(2))
+        a = rng.range(1, len(pl) - 1)
+        ping, pong = rng.bytes(min(125, M)), rng.bytes(min(125, M))
+        frames = [ws_ser(False, 2, True, rng.bytes(4), pl[:a]), ws_ser(True, 9, True, rng.bytes(4), ping),
+                  ws_ser(True, 10, True, rng.bytes(4), pong), ws_ser(True, 0, True, rng.bytes(4), pl[a:])]
+        stream = b"".join(frames)
+        for segs in segmentations(rng, stream, quick, few=True):
+            cases.append({"cat": "server-stream", "ops": ["srv reset %d" % M] + ["srv data %s" % hexs(x) for x in segs], "stream_id": "budget%d" % bi,
+                          "expect_msgs": [("PONG", ping), ("B", pl)], "ends_early": False, "maxframe": M, "stream_len": len(stream), "nseg": len(segs)})
     # the REAL upgrade boundary: the first `c` bytes of the stream arrive in the same read as the upgrade request
     # (HttpServer::handleIncomingData -> thread pool -> onUpgradeRequest -> 101 -> buffer drain -> onUpgradedData)
     for sidx in range(14 * scale):
         maxframe = rng.choice([16777216, 300, 64])
         st = gen_stream(rng, maxframe)
         stream = b"".join(st["frames"])
-        if CRLF2 in stream or len(stream) > 60000:
-            continue        # the HTTP request loop would look for a second pipelined request in the trailing bytes
+        if len(stream) > 60000:
+            continue
         script = rand_script(rng) if sidx % 3 == 1 else None
         n = len(stream)
         cuts = sorted(set([0, n, min(n, 1), min(n, 2), n // 2, max(n - 1, 0)] + [rng.below(n + 1) for _ in range(3)]))
@@ -437,6 +471,113 @@ def gen_server_cases(ctx, rng, scale, quick):
                 ops += ["srv data %s" % hexs(x) for x in (rest[:k], rest[k:]) if x or rng.chance(1, 4)]
             cases.append({"cat": "server-upgrade", "ops": ops, "stream_id": "u%d" % sidx, "expect_msgs": st["expect"], "ends_early": st["ends_early"],
                           "maxframe": maxframe, "stream_len": n, "cut": c})
+    # CR LF CR LF INSIDE WebSocket bytes that trail the upgrade request (FC18f): the HTTP request loop must not look at them
+    for sidx in range(6 * scale):
+        inner = rng.choice([b"a\r\n\r\nb", b"\r\n\r\n", b"GET /x HTTP/1.1\r\nHost: h\r\n\r\n", b"x\r\nContent-Length: 5\r\n\r\nhello"])
+        frames = [ws_ser(True, 1, True, b"\0\0\0\0", inner), ws_ser(True, 1, True, rng.bytes(4), b"two"),
+                  ws_ser(True, 2, rng.chance(1, 2), b"\0\0\0\0", b"\r\n\r\n" + rng.bytes(3))]
+        expect = [("T", inner), ("T", b"two"), ("B", frames[2][-7:])]
+        stream = b"".join(frames)
+        n = len(stream)
+        for c in sorted(set([n, len(frames[0]), 3, len(frames[0]) + 2, rng.below(n + 1)])):
+            ops = ["srv reset 16777216", "srv upgrade %s" % hexs(stream[:c])] + (["srv data %s" % hexs(stream[c:])] if c < n else [])
+            cases.append({"cat": "server-upgrade", "ops": ops, "stream_id": "r%d" % sidx, "expect_msgs": expect, "ends_early": False,
+                          "maxframe": 16777216, "stream_len": n, "cut": c, "crlf": True})
+    # the hand-over under concurrency (FC18f): one read delivered while the pool thread is inside the origin callback (before the
+    # mark), inside _onConnect (after mark and session creation, before the 101) or inside the first message callback of the drain
+    for sidx in range(16 * scale):
+        maxframe = rng.choice([16777216, 300, 64])
+        st = gen_stream(rng, maxframe)
+        stream = b"".join(st["frames"])
+        if len(stream) > 60000:
+            continue
+        script = rand_script(rng) if sidx % 4 == 1 else None
+        n = len(stream)
+        for point in ("origin", "connect", "msg"):
+            for _ in range(2):
+                c1 = rng.choice([0, rng.below(n + 1), len(st["frames"][0]), min(n, 1)])
+                c1 = min(c1, n)
+                c2 = rng.choice([n, rng.range(c1, n), min(n, c1 + 1)])
+                ops = ["srv reset %d" % maxframe] + (["srv script " + script] if script else [])
+                ops.append("srv upgrade2 %s %s %s" % (hexs(stream[:c1]), point, hexs(stream[c1:c2])))
+                if c2 < n:
+                    ops.append("srv data %s" % hexs(stream[c2:]))
+                cases.append({"cat": "server-upgrade2", "ops": ops, "stream_id": "v%d" % sidx, "expect_msgs": st["expect"], "ends_early": st["ends_early"],
+                              "maxframe": maxframe, "stream_len": n, "cut": c1, "point": point})
+    # onUpgradeRequest variants: header values in any case / with extra tokens / absent / wrong; accepted ones carry trailing frames
+    U = [b"websocket", b"WebSocket", b"WEBSOCKET", b"websocket2", b"h2c", b"", b"web socket"]
+    Cn = [b"Upgrade", b"upgrade", b"keep-alive, Upgrade", b"UPGRADE", b"keep-alive", b"", b"close", b"xupgradex"]
+    Ky = [SAMPLE_KEY, SAMPLE_KEY, b"abc", b""]
+    Vs = [b"13", b"13", b"12", b"8", b"", b"130"]
+    for i in range(36 * scale):
+        if i % 3 == 0:
+            u, cn, ky, vs = rng.choice(U[:3]), rng.choice(Cn[:4]), rng.choice(Ky[:3]), b"13"
+        else:
+            u, cn, ky, vs = rng.choice(U), rng.choice(Cn), rng.choice(Ky), rng.choice(Vs)
+        ok = u.lower() == b"websocket" and b"upgrade" in cn.lower() and ky != b"" and vs == b"13"
+        tr = b""
+        if ok and rng.chance(1, 2):
+            tr = ws_ser(True, 1, True, rng.bytes(4), b"hi") + ws_ser(True, 9, True, rng.bytes(4), b"p")
+        ops = ["srv reset 16777216", "srv upgradeh %s %s %s %s %s" % (hexs(u), hexs(cn), hexs(ky), hexs(vs), hexs(tr))]
+        if ok:
+            ops.append("srv data %s" % hexs(ws_ser(True, 2, True, rng.bytes(4), b"later")))
+        cases.append({"cat": "server-upgradeh", "ops": ops, "maxframe": 16777216, "accepted": ok})
+    # the transport closes the connection (peer drops TCP) while the session holds state (FC18g): nothing may stay behind
+    for i in range(24 * scale):
+        maxframe = rng.choice([16777216, 300, 64])
+        k = i % 6
+        pre = []
+        if k == 0:      # half a fragmented message
+            pre = [ws_ser(False, rng.choice([1, 2]), True, rng.bytes(4), rng.bytes(rng.range(1, min(maxframe, 200))))]
+        elif k == 1:    # a partial frame
+            w = ws_ser(True, 2, True, rng.bytes(4), rng.bytes(40))
+            pre = [w[:rng.range(1, len(w) - 1)]]
+        elif k == 2:    # after a 1007 close (the server sent CLOSE, the peer never answers)
+            pre = [ws_ser(True, 1, True, rng.bytes(4), b"\xff"), ws_ser(False, 2, True, rng.bytes(4), b"abc")]
+        elif k == 3:    # after an unknown opcode (1002 sent, session kept)
+            pre = [ws_ser(True, rng.choice([3, 7, 11]), True, rng.bytes(4), b""), ws_ser(False, 1, True, rng.bytes(4), b"x")]
+        elif k == 4:    # idle session
+            pre = []
+        else:           # after the close handshake (entry already erased)
+            pre = [ws_ser(True, 8, True, rng.bytes(4), (1000).to_bytes(2, "big"))]
+        ops = ["srv reset %d" % maxframe] + ["srv data %s" % hexs(x) for x in pre] + ["srv tclose"]
+        ops += [rng.choice(["srv sendText 6869", "srv sendClose 1000 -", "srv data %s" % hexs(ws_ser(True, 2, True, rng.bytes(4), b"late")), "srv sendPing 70"])
+                for _ in range(rng.range(0, 2))]
+        cases.append({"cat": "server-tclose", "ops": ops, "maxframe": maxframe, "shape": k})
+    # limits: maxFrameSize 0, and the constructor default (never calling setMaxFrameSize) at its real 16 MiB boundary
+    for pl in (b"", b"x"):
+        for op in (1, 2, 9):
+            cases.append({"cat": "server-limit", "ops": ["srv reset 0", "srv data %s" % hexs(ws_ser(True, op, True, rng.bytes(4), pl)), "srv sendText 6869"], "maxframe": 0})
+    for declared in (16777215, 16777216, 16777217, 2 ** 32):
+        hdr = bytes([0x82, 0x80 | 127]) + declared.to_bytes(8, "big") + rng.bytes(4) + rng.bytes(20)
+        cases.append({"cat": "server-limit", "ops": ["srv reset default", "srv data %s" % hexs(hdr), "srv data %s" % hexs(rng.bytes(30))], "maxframe": 16777216,
+                      "declared": declared})
+    # endpoint sends with 16- and 64-bit length encodings
+    for ln in (125, 126, 127, 65535, 65536, 70001):
+        pl = rand_payload(rng, ln)
+        cases.append({"cat": "server-bigsend", "ops": ["srv reset 16777216", "srv sendBinary %s" % hexs(pl), "srv sendText %s" % hexs(b"a" * ln)], "maxframe": 16777216})
+        cases.append({"cat": "client-bigsend", "ops": ["cli reset", "cli sendBinary %s" % hexs(pl), "cli sendText %s" % hexs(b"a" * ln)], "maxframe": 16777216})
+    # shapes the mutation family reaches only by luck: a start frame while a fragmented message is in progress, an orphan
+    # continuation, a 1-byte close body, an application send between the two halves of a frame
+    for i in range(30 * scale):
+        ep = "srv" if i % 2 == 0 else "cli"
+        mk = (lambda fin, op, pl: ws_ser(fin, op, True, rng.bytes(4), pl)) if ep == "srv" else (lambda fin, op, pl: ws_ser(fin, op, False, b"", pl))
+        k = (i // 2) % 5
+        if k == 0:
+            w = [mk(False, 1, b"ab"), mk(False, 2, b"\1\2"), mk(True, 0, b"\3")]
+        elif k == 1:
+            w = [mk(True, 0, b"orphan"), mk(True, 1, b"ok")]
+        elif k == 2:
+            w = [mk(False, 0, b"orphan"), mk(True, 0, b"end"), mk(True, 2, b"z")]
+        elif k == 3:
+            w = [mk(True, 1, b"hi"), mk(True, 8, b"\x03")]
+        else:
+            w = [mk(False, 1, b"ab"), mk(True, 1, b"cd"), mk(True, 0, b"ef")]
+        wire = b"".join(w)
+        c = rng.below(len(wire) + 1)
+        ops = ["%s reset%s" % (ep, " 16777216" if ep == "srv" else "")] + (["%s script %s" % (ep, rand_script(rng))] if i % 3 == 0 else [])
+        ops += ["%s data %s" % (ep, hexs(wire[:c])), app_op(rng, ep), "%s data %s" % (ep, hexs(wire[c:])), app_op(rng, ep)]
+        cases.append({"cat": "%s-shapes" % ("server" if ep == "srv" else "client"), "ops": ops, "maxframe": 16777216, "shape": k})
     # robustness: protocol-invalid / mutated streams through the server
     for i in range(110 * scale):
         maxframe = rng.choice([16777216, 100, 64])
@@ -507,6 +648,15 @@ def gen_client_cases(ctx, rng, scale, quick):
             ops = ["cli reset %d" % maxframe] + (["cli script " + script] if script else []) + ["cli data %s" % hexs(x) for x in segs] + app
             cases.append({"cat": "client-stream", "ops": ops, "stream_id": "c%d" % sidx, "expect_msgs": st["expect"], "ends_early": st["ends_early"],
                           "maxframe": maxframe, "stream_len": len(stream), "nseg": len(segs)})
+    for bi, M in enumerate([64, 200, 300, 125] * scale):
+        pl = rand_payload(rng, M - rng.below(2))
+        a = rng.range(1, len(pl) - 1)
+        ping, pong = rng.bytes(min(125, M)), rng.bytes(min(125, M))
+        frames = [ws_ser(False, 2, False, b"", pl[:a]), ws_ser(True, 9, False, b"", ping), ws_ser(True, 10, False, b"", pong), ws_ser(True, 0, False, b"", pl[a:])]
+        stream = b"".join(frames)
+        for segs in segmentations(rng, stream, quick, few=True):
+            cases.append({"cat": "client-stream", "ops": ["cli reset %d" % M] + ["cli data %s" % hexs(x) for x in segs], "stream_id": "cbudget%d" % bi,
+                          "expect_msgs": [("PONG", ping), ("B", pl)], "ends_early": False, "maxframe": M, "stream_len": len(stream), "nseg": len(segs)})
     # the upgrade boundary: the 101 response and the first frames in any segmentation (cuts inside the response, at its end, inside frames)
     for sidx in range(14 * scale):
         st = gen_stream(rng, 16777216)
@@ -583,6 +733,11 @@ def gen_client_cases(ctx, rng, scale, quick):
                 ops.append("cli data %s" % hexs(bytes([0x80 | 9, 126, 0, 126]) + b"p" * 126))      # oversize ping -> protocol failure, onError
             else:
                 ops.append("cli data %s" % hexs(ws_ser(True, 9, False, b"", b"p")))
+        if i % 3 == 0:
+            # disconnect(): courtesy CLOSE (if still connected), transport gone; only sends can follow (they must all drop).
+            # A sendClose after it reaches no transport in the real client: not generated (the model has no transport object).
+            ops.append("cli disconnect %d %s" % (rng.choice([1000, 1001, 4000]), hexs(rng.choice([b"", b"bye", b"r" * 130]))))
+            ops += [o for o in (app_op(rng, "cli") for _ in range(rng.range(0, 3))) if " sendClose " not in o]
         cases.append({"cat": "client-close-race", "ops": ops, "maxframe": 16777216})
     return cases
 
@@ -592,7 +747,7 @@ RACE_PROGRAMS = {
     "srv": ["t:6869/c:1000:-", "b:0102/d:CLOSE", "t:6869,b:01/c:1001:6279", "t:61/c:1000:-/d:CLOSE", "p:70/c:1000:-", "t:61/d:TEXTBAD",
             "c:1000:-/d:CLOSE", "t:61,t:62/d:CLOSE"],
     "cli": ["t:6869/c:1000:-", "b:0102/d:CLOSE", "t:6869,b:01/c:1001:6279", "t:61/c:1000:-/d:CLOSE", "p:70/c:1000:-", "t:61/d:TEXTBAD",
-            "c:1000:-/d:CLOSE"],
+            "c:1000:-/d:CLOSE", "b:0102/x:1000:-", "t:61,b:01/x:1001:6279"],
 }
 
 
@@ -614,6 +769,8 @@ def item_to_op(ep, it):
         return "%s sendPing %s" % (ep, p[1])
     if p[0] == "c":
         return "%s sendClose %s %s" % (ep, p[1], p[2])
+    if p[0] == "x":
+        return "%s disconnect %s %s" % (ep, p[1], p[2])
     return "%s data %s" % (ep, p[1])
 
 
@@ -702,6 +859,113 @@ def run_races(ctx, hb, quick):
     ctx.extra["race_schedules_run"] = n_sched
     ctx.extra["race_distinct_outcomes"] = n_out
     return n_sched
+
+
+def run_xrace(ctx, hb, quick, corpus):
+    """REAL threads (no DetSched: the window lies between two calls DetSched cannot separate): sendBinary of a large payload
+    against disconnect(), the disconnect starting once the sender is inside its _sendMutex section (FC18e). Monitor: W5 on the
+    order in which frames were handed to the transport."""
+    sizes = [16 << 20, 24 << 20] if quick else [16 << 20, 24 << 20, 32 << 20, 48 << 20, 8 << 20, 64 << 20]
+    lines = [o for c in corpus for o in c["ops"]] + ["cli xrace %d" % n for n in sizes]
+    out, rc, err = ctx.run_lines([hb], lines, timeout=600)
+    out = out + ["crash:%s" % rc] * (len(lines) - len(out))
+    seen = {}
+    for op, l in zip(lines, out):
+        ctx.count_case("xrace " + op + str(len(seen)))
+        evl = events_of([l])
+        key = ";".join(e.split(":")[0] + ":" + e.split(":")[1] for e in evl if e.startswith("S:"))
+        seen[key] = seen.get(key, 0) + 1
+        if " | " not in l:
+            ctx.violation("property", "W6: the real-thread disconnect race died or threw: %s -> %s" % (op, l[:120]),
+                          {"ops": [op], "category": "xrace", "stderr": err[-1500:]}, found_input=True)
+            continue
+        closed = False
+        for e in evl:
+            so = sent_opcode(e)
+            if so == 8:
+                closed = True
+            elif so in DATA and closed:
+                ctx.violation("property", "W5: data frame handed to the transport after the CLOSE frame of disconnect() (sender inside its _sendMutex section while "
+                              "teardownTransport sends the CLOSE without it): %s" % ";".join(x[:24] for x in evl),
+                              {"ops": [op], "observed": [l], "category": "xrace"}, found_input=True)
+                break
+    ctx.extra["xrace_outcomes"] = seen
+
+
+def branch_counters(res):
+    """which branches the correspondence run reached, MEASURED from the implementation's own answers"""
+    bc = {}
+
+    def inc(k, n=1):
+        bc[k] = bc.get(k, 0) + n
+    for c, impl, model in res:
+        for op, l in zip(c["ops"], impl):
+            t = op.split()
+            if t[0] == "parse":
+                a = l.split()
+                if a and a[0] == "frame":
+                    n = 0 if a[5] == "-" else len(a[5]) // 2
+                    hdr = int(a[6]) - n - (4 if a[3] == "1" else 0)
+                    inc("parse.frame.len%s" % {2: "7", 4: "16", 10: "64"}.get(hdr, "other(rsv-empty)"))
+                    inc("parse.frame.masked" if a[3] == "1" else "parse.frame.unmasked")
+                else:
+                    inc("parse." + (a[0] if a else "none"))
+                continue
+            if " | " not in l:
+                continue
+            ep = t[0]
+            evs = events_of([l])
+            prev = None
+            for e in evs:
+                so = sent_opcode(e)
+                k = e.split(":")[0]
+                if k in ("T", "B"):
+                    inc("%s.deliver.%s" % (ep, "text" if k == "T" else "binary"))
+                elif k == "C":
+                    inc("%s.close.%s" % (ep, "echoed" if prev is not None and sent_opcode(prev) == 8 else "not-echoed"))
+                elif k == "E":
+                    inc("%s.onError" % ep)
+                elif k == "X":
+                    inc("%s.closeSession" % ep)
+                elif so == 10:
+                    inc("%s.pong" % ep)
+                elif so == 8:
+                    code = None
+                    if ep == "srv":
+                        w = unhex(e[2:])
+                        code = int.from_bytes(w[2:4], "big") if len(w) >= 4 else 0
+                    else:
+                        b = unhex(e.split(":")[3]) if e.split(":")[3] != "-" else b""
+                        code = int.from_bytes(b[:2], "big") if len(b) >= 2 else 0
+                    inc("%s.sendClose.%s" % (ep, code if code in (1002, 1007, 1009) else "app"))
+                elif so in DATA or so == 9:
+                    if prev is not None and prev.split(":")[0] in ("T", "B", "C", "E") and t[1] in ("data", "upgrade", "upgrade2"):
+                        inc("%s.reentrant-send" % ep)
+                    if ep == "srv":
+                        w = unhex(e[2:])
+                        inc("srv.sent.len%s" % ("7" if w[1] & 127 < 126 else "16" if w[1] & 127 == 126 else "64"))
+                    else:
+                        pl = e.split(":")[3]
+                        n = 0 if pl == "-" else len(pl) // 2
+                        inc("cli.sent.len%s" % ("7" if n < 126 else "16" if n < 65536 else "64"))
+                prev = e
+            if t[1] in ("sendText", "sendBinary", "sendPing") and not evs:
+                inc("%s.send-dropped" % ep)
+            if t[1] == "upgrade2":
+                inc("srv.upgrade2.%s" % t[3])
+            if t[1] == "upgrade":
+                inc("srv.upgrade.trailing" if t[2] != "-" else "srv.upgrade.empty")
+            if t[1] == "tclose":
+                inc("srv.tclose")
+            if t[1] == "upgradeh":
+                inc("srv.upgradeh.%s" % ("accept" if "O" in evs else next((e for e in evs if e.startswith("H:")), "none")))
+            if t[1] == "disconnect":
+                inc("cli.disconnect.%s" % ("close-sent" if evs else "no-close"))
+            if "frag=" in l and int(l.split("frag=")[1].split()[0]) > 0:
+                inc("%s.fragment-in-progress" % ep)
+            if "buf=" in l and int(l.split("buf=")[1].split()[0]) > 0:
+                inc("%s.partial-frame-buffered" % ep)
+    return dict(sorted(bc.items()))
 
 
 # ------------------------------------------------------------------ property monitors (implementation output only)
@@ -851,7 +1115,21 @@ def monitor_case(c, impl):
                 fr = int(l.split("frag=")[1].split()[0])
                 if fr > mf:
                     bad.append("W6: fragment buffer holds %d bytes, limit %d: reassembly buffers without bound" % (fr, mf))
-    if cat in ("client-stream", "server-stream", "server-upgrade", "client-upgrade") and "expect_msgs" in c:
+    if cat == "server-upgradeh":
+        l = impl[1] if len(impl) > 1 else ""
+        if "held=1" in l:
+            bad.append("W3: the reads of the session are still held back after the upgrade request was decided (connection stuck): %s" % l[:120])
+        if " | " in l and (("O" in events_of([l])) != c["accepted"] or ("upgraded=1" in l) != c["accepted"]):
+            bad.append("W3: upgrade %s although the request %s the conditions of RFC 6455 4.2.1: %s" % (
+                "accepted" if "upgraded=1" in l else "not accepted", "meets" if c["accepted"] else "does not meet", l[:100]))
+    if cat == "server-tclose" or (cat == "corpus" and any(o == "srv tclose" for o in c["ops"])):
+        closed = False
+        for op, l in zip(c["ops"], impl):
+            closed = closed or op == "srv tclose"
+            if closed and " | " in l and ("alive=0" not in l or "buf=0 " not in l or "frag=0 " not in l):
+                bad.append("W6: session state retained after the transport closed the connection (unbounded across connections): %s -> %s" % (op[:40], l.split(" | ")[1]))
+                break
+    if cat in ("client-stream", "server-stream", "server-upgrade", "server-upgrade2", "client-upgrade") and "expect_msgs" in c:
         ep = "cli" if cat.startswith("client") else "srv"
         got = delivered(events_of(impl), ep)
         want = [e for e in c["expect_msgs"] if e[0] in ("T", "B", "PONG", "CLOSE1007")]
@@ -875,11 +1153,23 @@ def replay(ctx):
     if not hb or not ops:
         print("replay: nothing to run (kind=%s)" % obj.get("kind"))
         return 1 if ctx.violations else 0
-    if any(" race " in o for o in ops):
+    if any(" race " in o or " xrace " in o for o in ops):
         out, rc, err = ctx.run_lines([hb], ops, timeout=300)
         still = False
         for o, l in zip(ops, out):
             print("op    %s\n impl  %s" % (o[:200], l[:300]))
+            if " xrace " in o:
+                seen = False
+                for e in events_of([l]):
+                    so = sent_opcode(e)
+                    if so == 8:
+                        seen = True
+                    elif so in DATA and seen:
+                        still = True
+                        print("PROPERTY FAILS: W5: data frame after close frame: %s" % e[:60])
+                if " | " not in l:
+                    still = True
+                continue
             for part in l.split()[4:]:
                 status, choices, evs = part.split("@", 2)
                 seen = False
@@ -960,6 +1250,8 @@ def run(ctx: Ctx):
     dist = {}
     if hb:
         corpus = load_corpus()
+        xr_corpus = [c for c in corpus if c.get("cat") == "xrace"]
+        corpus = [c for c in corpus if c.get("cat") != "xrace"]
         cases = corpus + gen_codec_cases(ctx, rng.fork("codec"), scale) + gen_server_cases(ctx, rng.fork("srv"), scale, quick) + \
             gen_client_cases(ctx, rng.fork("cli"), scale, quick)
         res = ctx.lockstep("ws", hb, cases)
@@ -972,7 +1264,7 @@ def run(ctx: Ctx):
                 ctx.sample({"cat": c["cat"], "ops": [o[:160] for o in c["ops"][:6]], "impl": [l[:160] for l in impl[:6]]})
             fails = monitor_case(c, impl)
             mism = [(i, a, b) for i, (a, b) in enumerate(zip(impl, model)) if a != b]
-            if c["cat"] in ("server-stream", "client-stream", "server-upgrade", "client-upgrade"):
+            if c["cat"] in ("server-stream", "client-stream", "server-upgrade", "server-upgrade2", "client-upgrade"):
                 by_stream.setdefault(c["stream_id"], []).append((c, impl))
             if fails:
                 report_property(ctx, hb, c, impl, model, fails)
@@ -1006,7 +1298,9 @@ def run(ctx: Ctx):
                                     extra={"whole_ops": lst[0][0]["ops"]})
                     break
         ctx.extra["segmentations_compared"] = nseg
+        ctx.extra["branch_counters"] = branch_counters(res)
         try:
+            run_xrace(ctx, hb, quick, xr_corpus)
             run_races(ctx, hb, quick)
         except Exception as e:     # a harness that cannot run the races is a broken tie, not a pass
             ctx.violation("correspondence", "race driver failed: %s" % str(e)[:300], {"broken": {"correspondence": "race runs", "detail": str(e)}})
@@ -1017,10 +1311,13 @@ def run(ctx: Ctx):
         "W5 under true concurrency is proved for the small-step model over the COMPILED SKELETON (W5_concurrent: any threads, any schedule); what that rests on is the translator's abstraction (textual order of lock/flag/send events per function, RAII release on return, frames reach the wire in hand-over order because sendRaw/sendRawBytes serialise under the transport mutex) - tied by the decide obligations on the regenerated skeleton and by DetSched enumeration of 2-3 thread programs against the real code, not by a proof about C++",
         "server: full events after the session has ended inside a read depend on the segmentation (a ping in the same read as a preceding CLOSE is answered, in a later read it is not): W3_server needs CloseOnlyLast + fitting messages; only deliveries (W3_server_msgs) are unconditional",
         "client upgrade response: the SHA-1/base64 value of Sec-WebSocket-Accept enters the model as a constant (the expected value), and only accepted/rejected responses are distinguished (negotiated sub-protocol not modelled); rejected responses are checked in lockstep, not characterised by a theorem",
-        "HttpServer::handleIncomingData's HTTP request framing before the upgrade is C15; trailing bytes that contain CRLFCRLF are looked at by that request loop (excluded from the generator)"]
-    ctx.assumptions += ["single I/O thread per session (the per-session receive state is only touched by it); application threads interleave at the locked sections pinned by W5_lock_discipline",
+        "HttpServer::handleIncomingData's HTTP request framing BEFORE the upgrade request is C15; the hand-over model starts where the request loop has extracted the Upgrade request (hold set, rest stored, loop left: pinned by C18_handover_pinned); a DECLINED upgrade (onUpgradeRequest returns false / answers 4xx) is not modelled: the hold is released by the scope guard and bytes that arrived meanwhile are parsed as HTTP at the next read",
+        "the hand-over theorem is about the step model (each step = one _sessionMutex critical section or one call made with no lock held); the tie to the C++ is the six regenerated shape facts + lockstep runs with a read injected inside the origin callback, inside _onConnect and inside the first message callback of the drain; a read between markSessionUpgraded and the creation of _sessions[sid] needs a second real thread and is covered by the model only",
+        "client disconnect(): the ordering CLOSE-before-close(sid) and the transport teardown itself are C02/C05; here only the frame discipline (flag + CLOSE under _sendMutex) is modelled; doConnect is not executed by the harness (it builds a real TCP transport): its resets are tied by the translator fact the model is defined from (C18_reconnect_fresh)",
+        "server and client treat frames AFTER a peer CLOSE differently (the server has erased the session, the client keeps parsing; W4_data_after_peer_close_observation): RFC 6455 5.5.1 forbids such streams, so this is outside the clause; agreement is proved for close-last streams (W4_server_client_same_messages) and the generator encodes the difference for close_mid streams"]
+    ctx.assumptions += ["one I/O thread per session delivers its reads in order; during the upgrade a pool thread runs concurrently with it (modelled: C18_upgrade_handover); application threads interleave at the locked sections pinned by W5_lock_discipline",
                         "the fake engine records bytes handed to Transport::sendAsync; delivery of those bytes is C01",
-                        "callbacks are modelled as scripts of sends; other re-entrant calls (disconnect(), stop()) are C02/C05"]
+                        "callbacks are modelled as scripts of sends; other re-entrant calls (stop(), disconnect() from inside a callback) are C02/C05"]
     return ctx.finish(level="proof", rule="a case = one op list (codec op; one segmentation of one generated frame stream fed to a fresh real session, via onUpgradedData/handleData or through the real upgrade path; a robustness or close-race history; one race program); "
                       "distinct = distinct op lists; non-trivial = at least one answer other than `incomplete`")
 
